@@ -62,6 +62,12 @@ def run(res, tier, seed):
         enc(rng2.bytes(n))
         if tier != 'quick' or n < 3000: enc(bytes([rng2.below(256)]) + bytes(n - 1)); enc(bytes([0xff]) * n)
     for cls, b in G.enc_structured(rng2, tier): enc(b)
+    # 2d. second audit pass (vlib/gen_c18.py, /tmp/a/C18/AUDIT2.md): EVERY length 0..1000 and k * B + r around the multiples of 40 block
+    #     sizes (a block loop with a remainder); 7-bit input and its neighbours with exactly one byte >= 0x80 (in the tail group, the
+    #     first group, at the end) - what a fast path for the common shape would hinge on
+    rng3 = C.Rng(seed).fork('c18-audit2')
+    for n in G.enc_sizes2(tier, G.enc_sizes(tier)): enc(rng3.bytes(n))
+    for cls, b in G.enc_ascii(rng3, tier): enc(b)
     # 3. decoder: valid texts, every single-character corruption, padding shapes
     valid = []
     for n in list(range(0, 10)) + [31, 32, 33]:
@@ -95,6 +101,13 @@ def run(res, tier, seed):
     for cls, t in G.dec_texts(rng2, tier, valid):
         dec(t, 'valid' if cls.startswith('valid') else cls)
     for t in G.noncanonical(rng2, tier): dec(t, 'unused-bits')
+    # 3d. second audit pass: texts whose BYTE length is a multiple of 4 with a multi-byte character inside (every 2-byte character at
+    #     every alignment; characters all of whose UTF-8 bytes spell alphabet characters once the top bit is dropped), a multi-byte
+    #     character across every byte offset 1..135 (alone, and at a distance from an ASCII bad character), a bad character at
+    #     window-relative places of texts of 16 k + r characters, text that went through another encoding layer (%3D, '+' as blank,
+    #     \/ ...), twin quartets, a bad character at and beyond a length limit
+    for cls, t in G.dec_texts2(rng3, tier):
+        dec(t, 'valid' if cls.startswith('valid') else cls)
     # 4. length-3 block op: all 256 third bytes for a given (a, b)
     pairs = [(a, b) for a in range(256) for b in range(256)]
     if tier == 'quick':
@@ -104,14 +117,27 @@ def run(res, tier, seed):
     x3_lines = ['b64x3 ' + bytes([a, b]).hex() for a, b in pairs]
     x3_meta = [('x3', p) for p in pairs]
     # order only: the costly lines (block ops, long texts) are dealt evenly over the list, which the runner cuts into contiguous shards
-    heavy = [i for i, ln in enumerate(lines) if len(ln) > 2000]
+    heavy = [i for i, ln in enumerate(lines) if G.cost(ln) > 4e-4]
     hs = set(heavy)
     order = G.spread([('l', i) for i in range(len(lines)) if i not in hs],
                      [(('x', j), G.cost(x3_lines[j])) for j in range(len(x3_lines))] + [(('l', i), G.cost(lines[i])) for i in heavy], C.NCPU)
     lines = [(lines[i] if k == 'l' else x3_lines[i]) for k, i in order] + x3_lines[-1:]
     meta = [(meta[i] if k == 'l' else x3_meta[i]) for k, i in order] + x3_meta[-1:]
 
+    # 5. histories (second audit pass): ONE ordered list run by ONE process on each side - the same text twice, two texts that share
+    #    all but one group / differ only in case / are prefixes of each other, long after short, a valid text after one that failed
+    #    half way, 'xy==' / 'xyA=' / 'xyAA' in every order, more distinct texts than a small table holds and then the same again.
+    #    Every answer is judged by the same clauses as above; what an earlier call leaves behind shows in a later answer.
+    hist = G.history(C.Rng(seed).fork('c18-history'), tier)
+    h_lines = [('b64enc ' + C.hx(it[1])) if it[0] == 'enc' else ('b64dec ' + C.hx(it[1].encode('utf-8'))) for it in hist]
+    h_meta = [('enc', it[1]) if it[0] == 'enc' else ('dec', (it[1], it[2])) for it in hist]
+    h_out = {}
+    import threading
+    th = [threading.Thread(target=lambda: h_out.__setitem__('i', C.run_impl(h_lines, shards=1))),
+          threading.Thread(target=lambda: h_out.__setitem__('m', C.run_model(h_lines, shards=1)))]
+    for t_ in th: t_.start()
     impl, model = C.run_both(lines)
+    for t_ in th: t_.join()
     res.rule = ('encode: exhaustive over all byte strings of length 0..2 (65 793) plus %s 2-byte prefixes x all 256 third '
                 'bytes through the block op b64x3, plus random strings of every length residue up to 64 KiB, constant fills, all strings of length 4..8 over two three-byte alphabets containing 0 and periodic strings whose tail repeats part of an earlier group; decode: valid '
                 'texts, every single-character corruption/deletion/insertion, all strings of length<=%d over {A,z,=,!}, random '
@@ -122,12 +148,25 @@ def run(res, tier, seed):
                 'quartet of each padding form, 2-/3-/4-byte characters whose low bits spell an alphabet character or = - _ (one and several '
                 'per text), blanks and blank sequences before / after / inside valid text, wrapped lines, armour, text after the padding, '
                 'URL-safe texts, two bad characters, one bad character far inside texts of 348..5464 characters, all xy== quartets; '
+                'second audit pass (relations inside the input and between calls): encode - every length 0..1000 and k * B + r (r = -2..2, k = 1..4; 1..2 from 1000 bytes on) for '
+                '40 block sizes B up to 10 002 bytes, 7-bit input of every length 1..130 and its neighbours with exactly one byte >= 0x80 (last byte, '
+                'tail group, first group); decode - every character U+0080..U+07FF at every byte alignment of texts whose BYTE length is a multiple '
+                'of 4, characters all of whose UTF-8 bytes spell alphabet characters without the top bit, Unicode digits, a multi-byte character '
+                'across every byte offset 1..135 (alone and at a distance from an ASCII bad character), bad characters at window-relative places of '
+                'texts of 16 k + r characters, percent- / backslash- / entity-encoded and commented forms of valid text, twin quartets, a bad '
+                'character at and beyond 1000 / 1024 / 2048 / 4096 characters; histories: one ordered list of about 12 000 calls run by ONE process '
+                '(the same text twice and then broken, texts sharing all but one group / differing only in case / prefixes of each other, long after '
+                'short, the empty input in between, a valid text after one that failed half way, xy== / xyA= / xyAA in every order, 300 texts and then '
+                'the same again); '
                 'a case is non-trivial when its input is non-empty; distinct = distinct protocol lines'
                 % ('all 65 536' if tier == 'thorough' else '512 sampled + 496 chosen (both bytes on mask boundaries; a = b)', 5 if tier == 'quick' else 6))
     res.exhaustive = ('all inputs of length 0..3 bytes (16 843 009) for encode and decode(encode)' if tier == 'thorough'
                       else 'all inputs of length 0..2 bytes (65 793) for encode and for decode of the reference text')
     C.compare(res, lines, impl, model, 'Base64', nontrivial=lambda ln, a: not ln.endswith(' -'))
-    for ln, (kind, pl), a in zip(lines, meta, impl):
+    C.compare(res, h_lines, h_out['i'], h_out['m'], 'Base64', nontrivial=lambda ln, a: not ln.endswith(' -'))
+    n_main = len(lines)
+    for k, (ln, (kind, pl), a) in enumerate(zip(lines + h_lines, meta + h_meta, impl + h_out['i'])):
+        if k >= n_main: res.count('history')
         if a.startswith('panic') or a.startswith('abort'):
             res.fail('panic:' + a.split(' ', 1)[1], ln, a, None, 'a Base64 entry point panicked')
             continue
@@ -159,7 +198,7 @@ def run(res, tier, seed):
                 res.fail('decode-accepts-overpadded', ln, a, None, 'quartet with three or more = accepted')
     # also: decode(encode(x)) through the implementation alone, where the encoder's answer is not the reference text decoded above
     rt_lines, rt_want = [], []
-    for (kind, pl), a in zip(meta, impl):
+    for (kind, pl), a in zip(meta + h_meta, impl + h_out['i']):
         if kind == 'enc' and a.startswith('ok') and again(len(pl)) and a != 'ok ' + C.hx(base64.b64encode(pl)):
             rt_lines.append('b64dec ' + a[3:]); rt_want.append('ok ' + C.hx(pl))
     order = G.spread([], [(i, G.cost(ln)) for i, ln in enumerate(rt_lines)], C.NCPU)
